@@ -1089,23 +1089,31 @@ func (c *Client) findNewPrimary(ctx context.Context, height int64, remove bool) 
 
 			wg.Wait() // wait for all goroutines to finish
 
+			// the respondent is promoted only once it has left the witness list: a provider must never
+			// be primary and witness at the same time (it would confirm its own headers)
+			newPrimary := c.witnesses[response.witnessIndex]
+
 			// if we are not intending on removing the primary then append the old primary to the end of the witness slice
 			if !remove {
 				c.witnesses = append(c.witnesses, c.primary)
 			}
 
-			// promote respondent as the new primary
-			c.logger.Debug("found new primary", "primary", c.witnesses[response.witnessIndex])
-			c.primary = c.witnesses[response.witnessIndex]
-
 			// add promoted witness to the list of witnesses to be removed
 			witnessesToRemove = append(witnessesToRemove, response.witnessIndex)
 
 			// remove witnesses marked as bad (the client must do this before we alter the witness slice and change the indexes
-			// of witnesses). Removal is done in descending order
+			// of witnesses). Removal is done in descending order. If no witness would remain, nothing is
+			// removed: primary and witnesses stay exactly as they were
 			if err := c.removeWitnesses(witnessesToRemove); err != nil {
+				if !remove {
+					c.witnesses = c.witnesses[:len(c.witnesses)-1]
+				}
 				return nil, err
 			}
+
+			// promote respondent as the new primary
+			c.logger.Debug("found new primary", "primary", newPrimary)
+			c.primary = newPrimary
 
 			// return the light block that new primary responded with
 			return response.lb, nil
